@@ -108,6 +108,26 @@ SEEDS = {
  'C12-6': dict(f='c12_seed6_demo.rs', **integ(PN_D + '/incentive', 'incentive', 'c12_seed6_demo.rs')),
  'C16-5': dict(f='seeded_c16_5.rs', **integ('contracts/liquidity_hub/vault-network/vault_factory', 'vault_factory', 'seeded_c16_5.rs')),
  'C16-6': dict(f='seeded_c16_6.rs', **integ('contracts/liquidity_hub/whale_lair', 'whale-lair', 'seeded_c16_6.rs')),
+ 'C07-5': dict(f='c07_burn_fee_factory_denom.rs', **integ(PN_D + '/terraswap_pair', 'terraswap-pair', 'c07_burn_fee_factory_denom.rs')),
+ 'C07-6': dict(f='c07_all_time_fees_after_collection.rs', **integ('contracts/liquidity_hub/vault-network/vault', 'vault', 'c07_all_time_fees_after_collection.rs')),
+ 'C14-5': dict(f='c14_share_quote_demo.rs', **integ('contracts/liquidity_hub/vault-network/vault', 'vault', 'c14_share_quote_demo.rs')),
+ 'C14-6': dict(f='c14_router_reverse_demo.rs', **integ('contracts/liquidity_hub/fee_collector', 'fee_collector', 'c14_router_reverse_demo.rs')),
+ 'C15-5': dict(f='c15_hook_swap_limits.rs', **integ(PN_D + '/stableswap_3pool', 'stableswap-3pool', 'c15_hook_swap_limits.rs')),
+ 'C15-6': dict(f='c15_minimum_receive_prev_balance.rs', **integ(PN_D + '/terraswap_router', 'terraswap-router', 'c15_minimum_receive_prev_balance.rs')),
+ 'C17-5': dict(f='c17_toggle_with_amp_ramp.rs', **integ(PN_D + '/stableswap_3pool', 'stableswap-3pool', 'c17_toggle_with_amp_ramp.rs')),
+ 'C17-6': dict(f='c17_switches_survive_migration.rs', **integ('contracts/liquidity_hub/vault-network/vault', 'vault', 'c17_switches_survive_migration.rs')),
+ 'C19-5': dict(f='seeded_c19_5_vaults_pagination.rs', **integ('contracts/liquidity_hub/vault-network/vault_factory', 'vault_factory', 'seeded_c19_5_vaults_pagination.rs')),
+ 'C19-6': dict(f='seeded_c19_6_duplicate_pool_type.rs', **integ(PN_D + '/terraswap_factory', 'terraswap-factory', 'seeded_c19_6_duplicate_pool_type.rs')),
+ 'C02-5': dict(f='c02_seed5_demo.rs', **integ(PN_D + '/terraswap_pair', 'terraswap-pair', 'c02_seed5_demo.rs')),
+ 'C02-6': dict(f='c02_seed6_demo.rs', **integ(PN_D + '/terraswap_pair', 'terraswap-pair', 'c02_seed6_demo.rs')),
+ 'C03-5': dict(f='c03_seed5_demo.rs', **integ(PN_D + '/terraswap_pair', 'terraswap-pair', 'c03_seed5_demo.rs')),
+ 'C03-6': dict(f='c03_seed6_demo.rs', **integ(PN_D + '/terraswap_pair', 'terraswap-pair', 'c03_seed6_demo.rs')),
+ 'C04-5': dict(f='seed5_ramp_down_interpolation.rs', **integ(PN_D + '/stableswap_3pool', 'stableswap-3pool', 'seed5_ramp_down_interpolation.rs')),
+ 'C04-6': dict(f='seed6_deposit_during_ramp.rs', **integ(PN_D + '/stableswap_3pool', 'stableswap-3pool', 'seed6_deposit_during_ramp.rs')),
+ 'C18-5': dict(f='c18_take_rate_bound.rs', **integ('contracts/liquidity_hub/fee_collector', 'fee_collector', 'c18_take_rate_bound.rs')),
+ 'C18-6': dict(f='c18_factory_asset_vault_fees.rs', **integ('contracts/liquidity_hub/vault-network/vault', 'vault', 'c18_factory_asset_vault_fees.rs')),
+ 'C20-5': dict(f='seeded_c20_5.rs', **integ('contracts/liquidity_hub/fee_distributor', 'fee_distributor', 'seeded_c20_5.rs')),
+ 'C20-6': dict(f='seeded_c20_6.rs', **integ('contracts/liquidity_hub/epoch-manager', 'epoch-manager', 'seeded_c20_6.rs')),
 }
 try: SEEDS.update(json.load(open(V + '/seeded/extra_seeds.json')))
 except Exception: pass
@@ -183,11 +203,23 @@ def run(sid, checks):
         m = json.load(open(mp)); m.setdefault('checks', {}).update(res); json.dump(m, open(mp, 'w'), indent=1)
 
 
-EXTRA = {'C01-5': ['C07'], 'C06-5': ['C05'], 'C06-6': ['C07'], 'C17-4': ['C16'], 'C17-3': ['C16'], 'C03-4': ['C14'], 'C14-4': ['C03'], 'C14-3': ['C05'], 'C07-4': ['C06'], 'C15-4': ['C01'], 'C02-3': ['C01'], 'C04-3': ['C07'], 'C04-4': ['C07'], 'C05-3': [], 'C05-4': ['C06'], 'C06-3': [], 'C06-4': ['C05'], 'C07-1': ['C05', 'C06'], 'C07-2': ['C04'], 'C14-2': ['C04'], 'C18-2': ['C04'], 'C16-2': ['C06'], 'C11-1': ['C13'], 'C17-1': ['C18'], 'C01-2': ['C07'], 'C01-1': ['C02'], 'C05-1': ['C06'], 'C05-2': ['C06', 'C07'],
+EXTRA = {'C02-5': ['C01', 'C14'], 'C02-6': ['C14'], 'C01-5': ['C07'], 'C06-5': ['C05'], 'C06-6': ['C07'], 'C17-4': ['C16'], 'C17-3': ['C16'], 'C03-4': ['C14'], 'C14-4': ['C03'], 'C14-3': ['C05'], 'C07-4': ['C06'], 'C15-4': ['C01'], 'C02-3': ['C01'], 'C04-3': ['C07'], 'C04-4': ['C07'], 'C05-3': [], 'C05-4': ['C06'], 'C06-3': [], 'C06-4': ['C05'], 'C07-1': ['C05', 'C06'], 'C07-2': ['C04'], 'C14-2': ['C04'], 'C18-2': ['C04'], 'C16-2': ['C06'], 'C11-1': ['C13'], 'C17-1': ['C18'], 'C01-2': ['C07'], 'C01-1': ['C02'], 'C05-1': ['C06'], 'C05-2': ['C06', 'C07'],
          'C06-1': ['C05'], 'C06-2': ['C05'], 'C03-1': ['C14'], 'C15-2': ['C14']}
 
 
 NOTES = {
+ 'C07-5': 'missed at first: pool assets with token-factory / ibc shaped denoms added (burn and transfer handling must not depend on the shape of a denom)',
+ 'C14-6': 'missed at first: router ReverseSimulateSwapOperations chain (last hop backwards) added; pair answers keyed by free symbolic amounts so a wrong order is a counterexample, not an unanswered query',
+ 'C17-6': 'missed at first: migration part added (real migrate entry of vault 1.1.3 and pair 1.1.0 with symbolic switches; models for cw2 / semver; migrate entry in the native runner)',
+ 'C19-5': 'missed at first: paging on from a cursor whose entry was removed in between (vaults and pairs) added',
+ 'C19-6': 'missed at first: duplicate creation asked for with ANOTHER pool type added',
+ 'C02-5': 'missed by C02 at first (C01 and C14 caught it): entry part added - the swap entry and the Simulation query hand the kernel exactly the reported reserves (spy on compute_swap, confirmed natively by the gross formula)',
+ 'C02-6': 'missed by C02 at first (C14 caught it): same entry part',
+ 'C03-5': 'missed at first: Newton step of compute_d against the documented two-coin step (Ann = 2 amp) added; ALSO exposed that my independent invariant oracles used the A n^n convention instead of the code\'s Ann = n amp - corrected (d_exact, d3_exact now agree with the converged real solvers)',
+ 'C04-6': 'first run inconclusive: native confirmation of mint counterexamples only used settled ramps; the predicate now interpolates the amplification in force and the candidate lies inside a ramp',
+ 'C20-6': 'missed at first: the clock is moved by CreateEpoch / NewEpoch only - every other message of the manager and the distributor\'s UpdateConfig leave the stored epoch untouched',
+ 'C18-5': 'caught at once thanks to the option power sets added after wave 8',
+ 'C18-6': 'caught at once thanks to the option power sets added after wave 8',
  'C10-5': 'missed at first: aggregation from a VAULT factory that lists a vault of the distribution asset, with a router that answers for the round-trip key, added',
  'C11-6': 'missed at first: helper deposit from a pre-state holding the TEMP_STATE another depositor left behind (same pair, any duration) added',
  'C12-6': 'missed by C12 at first (the obligation lived in the C13 check only): C12 got its own claim part (c12_claim.py, funded-amount bound from any claimed <= funded)',
